@@ -58,6 +58,23 @@ CHECKS = {
          "rep-prefixed string instructions with concrete counts are compared with their unrolled steps on the implementation (exploration, no model of the lifter yet). Invariant theorems (disjoint cells, read-back) not yet proved."),
    note=TB + "Modelled, not verified: EvalAbs.v (memory paths). Instruction-sequence composition over lifted x86 semantics is covered only through the rep/unrolled comparison so far.",
    design='4/C07', category='other'),
+ 'C10': dict(
+   technique='Gallina model of the x86 decoder interpreting tables regenerated from the running library (opcode trie, 728 mnemonic records, ModRM/SIB tables); exact-output correspondence over the structured control-byte space; totality clauses evaluated on the implementation',
+   text=("Decoder half: X86Dis.v mirrors _dis/get_afs/special_opcodes (exceptions other than IOError are explicit CRASH outcomes); the tables are re-dumped from /repo on every run (tie D) and the model "
+         "is compared with x86mnemo.dis on ~0.55M (quick) / 6M (thorough) control strings + random strings: None-ness, length, prefixes, mnemonic, every operand field. On the implementation: exact-length "
+         "re-decode (no over-read), every truncation reports absence, stream offsets 1..3, both renderings of one representative per (mnemonic, prefixes, operand-shape) signature. Universal theorems about "
+         "the model (no over-read, truncation) are work in progress: not yet claimed. Assembler text half: no Gallina model of PLY/asm_candidates — a fixed set of ~14k lines/token sequences is run and exception "
+         "types classified (exploration only)."),
+   note=TB + "Modelled, not verified: X86Dis.v. AT&T rendering fails for ~200 mnemonics and MMX/SSE forms with an extra prefix cannot be rendered in either syntax: listed in known_findings.json by class with witnesses.",
+   design='4/C10', category='other'),
+ 'C17': dict(
+   technique='Coq: vm_compute reflection over the opcode table regenerated from the library (flow classification of all 728 rows) + lia/Z.land lemmas for destination arithmetic; correspondence of the flow methods over branch forms x offsets near 2^32',
+   text=("Theorems (props/C17.v, closed): every row of the opcode table miasmx builds (re-dumped on every run) has the architectural flow class of its mnemonic — conditional jumps/loop/jecxz/call: "
+         "break+split+dst; jmp/ret/retf/iret/hlt/ud2: break without split; everything else not block-ending; sys* excluded; getnextflow = offset + length; destination of a direct relative branch = "
+         "offset + length + displacement mod 2^opsize for ALL offsets/lengths/displacements. The flow methods are tied by correspondence (all branch families x 9 prefix sets x boundary displacements x "
+         "offsets incl. 2^32-16..2^32-1, all 256 int vectors, 40k control strings) and every implementation answer is checked against the architectural rule directly."),
+   note=TB + "flow_spec (mnemonic -> class) is a hand-written specification from the Intel SDM. Operand-size of 66-prefixed rel16 branches is a decode question handled under C01.",
+   design='4/C17'),
 }
 PENDING = {p: 'check under construction in this round (see DESIGN.md section 6 staging); not claimed yet' for p in ALL}
 def main():
